@@ -22,7 +22,7 @@ tvars == <<vars, l, cid, mon, viol, ndiv, divs, dflag, ncases>>
 
 \* monitor: last observed projection + per-connection counters
 Mon0 == [sock |-> "Off", enc |-> FALSE, lst |-> "Core", authed |-> FALSE, session |-> FALSE, redirect |-> FALSE,
-         conn |-> 0, connSig |-> 0, hung |-> FALSE, iq |-> "none", sm |-> FALSE]
+         conn |-> 0, connSig |-> 0, hung |-> FALSE, iq |-> "none", sm |-> FALSE, canResume |-> FALSE]
 
 TInit ==
     /\ cfg = CHOOSE x \in AllCfgs : TRUE
@@ -66,7 +66,7 @@ MonNext(m, ev) ==
     IN [sock |-> p.sock, enc |-> p.enc, lst |-> p.lst, authed |-> p.authed, session |-> p.session, redirect |-> p.redirect,
         conn |-> p.conn,
         connSig |-> (IF newConn THEN 0 ELSE m.connSig) + NConnected(ev.sig),
-        hung |-> ev.hang, iq |-> p.iq, sm |-> p.smEnabled]
+        hung |-> ev.hang, iq |-> p.iq, sm |-> p.smEnabled, canResume |-> p.canResume]
 
 \* the set of failures is kept bounded per clause: a broken implementation fails in thousands of
 \* executions, the first ones per clause identify it (and the validation stays linear)
@@ -149,7 +149,9 @@ OpStep(ev) ==
 \* "Epilogue" marks the end of the honest reconnection appended to every behaviour: it must have
 \* produced a session.
 EndStep(ev) ==
-    /\ viol' = AddViol(IF ev.iqIssued /\ ev.iqDone # 1
+    \* (a request that is still retained for a resumption when the client object is destroyed is
+    \* dropped without a completion: the object's destruction is not something C10 speaks about)
+    /\ viol' = AddViol(IF ev.iqIssued /\ (ev.iqDone > 1 \/ (ev.iqDone = 0 /\ ~mon.canResume))
                          THEN {[case |-> cid, line |-> l, prop |-> "C10-RequestNotCompletedExactlyOnce", e |-> "End"]} ELSE {})
     /\ UNCHANGED <<vars, cid, mon, ndiv, divs, dflag, ncases>>
 
